@@ -5,6 +5,7 @@
 
 mod alloc;
 mod ctx;
+mod fatal;
 mod gen;
 mod json;
 mod neon_emu;
@@ -28,6 +29,7 @@ fn arg(args: &[String], name: &str) -> Option<String> {
 fn main() {
     // panics inside the library are caught per call; keep stderr quiet
     std::panic::set_hook(Box::new(|_| {}));
+    fatal::install();
     let args: Vec<String> = std::env::args().collect();
     if args.len() < 2 {
         eprintln!("usage: rsharness <property|replay> --tier T --seed N --model PATH --out FILE");
